@@ -383,7 +383,16 @@ def _run_twin(ctx):
             ok &= ctx.judge("Laplacian fast vs plain (mode %s)" % mode, a["lap"], b["lap"], tol, "fast_path_differs",
                             quantity="laplacian", mode=mode)
         if "dtheta" in a:
+            if sorted(a["dtheta"]) != sorted(b["dtheta"]):
+                # the two trunk modes are the same network: the same learnable tensors under the same names
+                only_f = sorted(set(a["dtheta"]) - set(b["dtheta"]))[:4]
+                only_p = sorted(set(b["dtheta"]) - set(a["dtheta"]))[:4]
+                ctx.violate("fast_path_differs", "mode %s: the fast and the plain network do not have the same trainable parameters "
+                            "(only fast: %s, only plain: %s)" % (mode, only_f, only_p), quantity="parameter_set", mode=mode)
+                ok = False
             for k in a["dtheta"]:
+                if k not in b["dtheta"]:
+                    continue
                 ok &= ctx.judge("d loss/d %s fast vs plain (mode %s, loss %s derivative terms)"
                                 % (k, mode, "with" if "dx" in a else "without"), a["dtheta"][k], b["dtheta"][k], tol,
                                 "fast_path_differs", quantity="dtheta", mode=mode,
@@ -404,6 +413,8 @@ def _run_twin(ctx):
         ctx.judge("d out/d x fast vs plain (trunk rank %d)" % other, ev["fast"]["dx"], ev["plain"]["dx"], tol,
                   "fast_path_differs", quantity="dx", mode="other_rank")
         for k in ev["fast"]["dtheta"]:
+            if k not in ev["plain"]["dtheta"]:
+                continue            # differing parameter sets are reported above
             ctx.judge("d loss/d %s fast vs plain (trunk rank %d)" % (k, other), ev["fast"]["dtheta"][k],
                       ev["plain"]["dtheta"][k], tol, "fast_path_differs", quantity="dtheta", mode="other_rank",
                       ptype="bias" if k.endswith("bias") else "weight")
